@@ -7,7 +7,7 @@ import re
 from ..core import utext
 from math import factorial
 
-from ..convtables import UNK, Groups, importer_tables
+from ..convtables import canon_importer, UNK, Groups, importer_tables
 from ..core import (AnalysisError, DefUse, Program, call_name, norm, parent)
 from ..report import Result
 
@@ -214,7 +214,7 @@ def check_idmap(prog: Program, res: Result, fi) -> None:
                         instance=inst)
     res.need("R-IDMAP", n, 10, "descriptor constructions in the importer")
     # atoms and bonds of the graph
-    for fn in (fi, prog.fn("rdmol2graph:mol_graph_from_rdmol")):
+    for fn in (fi, canon_importer(prog.fn("rdmol2graph:mol_graph_from_rdmol"))):
         for what, meth, nargs in (("atoms", "add_atom", 1),
                                   ("bonds", "add_bond", 2)):
             inst = f"{fn.short}: {what} added through id_atom_map"
@@ -288,7 +288,7 @@ def check_idmap(prog: Program, res: Result, fi) -> None:
                 (out if sh else odd).append(sh or norm(v, 120))
         return sorted(out), odd
     (a, odd_a), (b, odd_b) = maps(fi), maps(
-        prog.fn("rdmol2graph:mol_graph_from_rdmol"))
+        canon_importer(prog.fn("rdmol2graph:mol_graph_from_rdmol")))
     inst = "mol_graph_from_rdmol and smg_from_rdmol build id_atom_map identically"
     want = sorted([("GetIdx", "GetAtomMapNum", "rdmol.GetAtoms()"),
                    ("GetIdx", "GetIdx", "rdmol.GetAtoms()")])
@@ -313,7 +313,7 @@ def check_idx_id_mix(prog: Program, res: Result, fi) -> None:
              "only: the two integer spaces coincide for the index import and "
              "differ for the import by atom-map number")
     n = 0
-    for fn in (fi, prog.fn("rdmol2graph:mol_graph_from_rdmol")):
+    for fn in (fi, canon_importer(prog.fn("rdmol2graph:mol_graph_from_rdmol"))):
         for node, txt, kl, kr, ok in idkinds.check(fn, {"id_atom_map"}):
             n += 1
             inst = f"{fn.short}: `{txt}` ({kl} vs {kr})"
